@@ -312,6 +312,20 @@ def h_guards(ctx, cfg):
                 ctx.fail("out-of-range access accepted (%s)" % what, key="out-of-range access accepted")
             except ValueError:
                 ctx.prove(True, "out-of-range access is refused")
+    # a refused save is a refusal: the file that is already there (an earlier chain) stays as it was
+    empty = core.ThetaHolder(n_thetas=2)
+    try:
+        empty.save_h5(fn)
+        ctx.fail("empty holder was saved")
+    except ValueError:
+        ctx.prove(True, "empty holder refuses to be saved")
+    try:
+        again = core.ThetaHolder.load_h5(fn)
+        kept = len(again.thetas) == 2 and all(bool(x.equals(y)) for x, y in zip(again.thetas, back.thetas))
+    except (KeyError, OSError, ValueError):
+        kept = False
+    ctx.prove(kept, "a refused (empty) save leaves the collection already stored under that name loadable and unchanged",
+              key="refused save destroyed the stored collection")
     try:
         core.ThetaHolder.concat([])
         ctx.fail("concat of nothing accepted")
